@@ -37,11 +37,14 @@ PROPS['C03'] = dict(
 
 PROPS['C04'] = dict(
     engine='A', technique='symbolic-scalar execution of the real templates (T = z3 real terms) + QF_NRA obligations, exact-rational replay',
-    harnesses=[dict(name='C04_primops', src='C04_primops.cpp',
-                    defs=dict(quick=['-DMAXN=4', '-DMAXO=3', '-DMAXD=4'], thorough=['-DMAXN=5', '-DMAXO=5', '-DMAXD=6']),
+    harnesses=[dict(name='C04_primops_high', src='C04_primops.cpp',
+                    defs=dict(quick=['-DHIGH_ORDERS', '-DMAXN=2', '-DMAXO=0', '-DMAXD=0'], thorough=['-DHIGH_ORDERS', '-DMAXN=2', '-DMAXO=0', '-DMAXD=0']),
+                    functions=['Derivative<n>::transform and Position<n>::transform for n, order in {0,1,3,5,8,13,20,21,22,25}^2']),
+               dict(name='C04_primops', src='C04_primops.cpp',
+                    defs=dict(quick=['-DMAXN=4', '-DMAXO=4', '-DMAXD=6'], thorough=['-DMAXN=5', '-DMAXO=5', '-DMAXD=6']),
                     functions=['Derivative<n>::transform', 'Position<n>::transform', 'Position<n>::expandPower', 'IdentityOperator::transform', 'operators::transformSpline',
                                'operator*(Operator,Spline)', 'internal::faculty', 'internal::facultyRatio', 'internal::binomialCoefficient', 'Spline::operator=='])],
-    bounds=dict(quick='n = 0..4 for Dx<n>/X<n>, spline orders 0..3 (35 template pairs incl. n = order and n > order), every window of grids with 2..4 symbolic points (arbitrary spacing and distance from the origin)',
+    bounds=dict(quick='n = 0..6 for Dx<n>/X<n>, spline orders 0..4 (35 template pairs incl. n = order and n > order), every window of grids with 2..4 symbolic points (arbitrary spacing and distance from the origin); plus 100 sparse high pairs (n, order) in {0,1,3,5,8,13,20,21,22,25}^2 on the fixed rational interval [-3/2, 5/7] with symbolic coefficients and x (where factorials/binomials exceed 64-bit integers)',
                 thorough='n = 0..6, orders 0..5, grids of 2..5 points'),
     outside='n and orders above the bound; floating-point rounding (C16)',
     assumptions=['grid points strictly increasing reals', 'exact real arithmetic (sym::Real), not IEEE'],
@@ -95,11 +98,11 @@ PROPS['C07'] = dict(
 PROPS['C01'] = dict(
     engine='A', technique='symbolic-scalar execution of the real generator (T = z3 real terms, all knots symbolic) + QF_NRA obligations against the Cox-de Boor recursion at a symbolic x, exact-rational replay',
     harnesses=[dict(name='C01_generator', src='C01_generator.cpp', chunk=1,
-                    defs=dict(quick=['-DMAXP=3', '-DEXTRA=4'], thorough=['-DMAXP=5', '-DEXTRA=4', '-DSMOOTHNESS']),
+                    defs=dict(quick=['-DMAXP=4', '-DEXTRA=4'], thorough=['-DMAXP=5', '-DEXTRA=4', '-DSMOOTHNESS']),
                     functions=['BSplineGenerator(knots)', 'BSplineGenerator(knots, grid)', 'BSplineGenerator::generateGrid', 'BSplineGenerator::generateBSplines<p>',
                                'BSplineGenerator::generateZerothOrderSplines', 'BSplineGenerator::applyRecursionRelation<k>', 'generateBSplines<p>(knots)', 'Grid::Grid', 'Grid::findElement',
                                'Position<1>::transform', 'ScalarMultiplication::transform', 'OperatorSum::transform', 'Spline::operator+=', 'Spline::operator=(lower order)', 'Spline::operator=='])],
-    bounds=dict(quick='orders p = 0..3; knot vectors of m = 2..p+4 knots; EVERY multiplicity pattern (all compositions of m with >= 2 parts: simple, interior and boundary repeats up to and beyond p+1); all knot values symbolic (any positive spacings, any offset); both construction routes and the free function; m < p+1 must throw, m = p+1 gives zero functions',
+    bounds=dict(quick='orders p = 0..4; knot vectors of m = 2..p+4 knots; EVERY multiplicity pattern (all compositions of m with >= 2 parts: simple, interior and boundary repeats up to and beyond p+1); all knot values symbolic (any positive spacings, any offset); both construction routes and the free function; m < p+1 must throw, m = p+1 gives zero functions',
                 thorough='orders p = 0..5, m <= p+4 (up to 9 knots, 255 patterns), plus explicit C^{p-mu} derivative-continuity obligations at every interior knot'),
     outside='p >= 6 (the examples use 10), knot vectors longer than p+4, floating-point rounding (C16)',
     assumptions=['knots non-decreasing with at least two distinct values (distinct values strictly increasing reals)', 'exact real arithmetic (sym::Real), not IEEE'],
